@@ -13,12 +13,13 @@ THEOREMS = ['Tbox.C14.' + t for t in [
     'C14_packet_roundtrip',
     'C14_stream_segmentation', 'C14_header_segmentation', 'C14_raw_segmentation',
     'C14_message_roundtrip', 'C14_encoder_roundtrip',
-    'C14_callback_once', 'C14_callback_code', 'C14_callback_ignored', 'C14_tick_slot',
+    'C14_callback_once', 'C14_callback_once_counterexample', 'C14_callback_code', 'C14_callback_ignored', 'C14_tick_slot',
     'C14_response_id_range', 'C14_response_id_counterexample',
-    'C14_ring_expiry', 'C14_callback_timeout', 'C14_callback_exactly_once',
+    'C14_ring_expiry', 'C14_callback_timeout', 'C14_callback_exactly_once', 'C14_callback_response',
     'C14_pending_timer_on', 'C14_pending_timer_on_counterexample',
-    'C14_server_request_answer', 'C14_server_sends_exactly', 'C14_server_respond_unchecked',
-    'C14_world_client_simulation', 'C14_world_callback_once', 'C14_world_callback_exactly_once',
+    'C14_cleanup_in_callback', 'C14_cleanup_final', 'C14_timeout_cleanup_counterexample',
+    'C14_server_request_answer', 'C14_handler_cleanup_counterexample', 'C14_server_respond_unchecked',
+    'C14_world_peer_simulation', 'C14_world_callback_once', 'C14_world_callback_exactly_once',
     'C14_timer_phase', 'C14_deadline_ms', 'C14_deadline_reached',
 ]]
 SOURCES = ['modules/jsonrpc/proto.cpp', 'modules/jsonrpc/rpc.cpp',
@@ -44,16 +45,22 @@ TRUSTED = [
     'the receive loop around onRecvData (consume ret while ret>0, stop on 0, give up on ret<0) is the harness\'s, as in examples/jsonrpc',
     'isgraph() is modelled for the "C" locale; FindEndPos levels are unbounded integers (input < 2^31 bytes)',
     'virtual time by libc interposition (harness/vtime.h); the 1-s timer is the real event loop\'s',
+    'user callbacks are scripts built by the harness from the op file; calling request/notify/respond/cleanup on an Rpc that has been '
+    'cleaned up (null proto_: a precondition violation) is refused by a guard on both sides (event `misuse`), never executed; '
+    'the nesting budget of the model (32 levels) is never reached by generated programs (the acceptor rejects `overflow`)',
 ]
 ASSUMPTIONS = ['message text shorter than 2^32 bytes (the encoder truncates the length field otherwise)',
                'stack depth of Proto::onRecvJson is exercised by the harness only (deep op), not expressible in the model']
 RULE = ('framing cases: messages generated as JSON (nested, quotes/backslashes/brackets in strings, non-ASCII) through the real '
         'encoder, fed back unsegmented, at every 2-way split, byte-wise and at random cuts, concatenated; literal streams with '
         'hand-built headers incl. extreme length fields and wrong magic; hostile bracket/quote-heavy bytes; deep arrays. '
-        'rpc cases: requests/notifications/responses (known, duplicate, late, unknown, beyond-int ids)/clock advances on a real Rpc; '
-        'world cases: two real Rpc peers (sync/async/unknown services, respond() calls) over a scripted dropping/duplicating/reordering pipe. '
+        'rpc cases: a random program of callback scripts (completion/timeout callbacks and service handlers that call request, notify, '
+        'respond, feed a response frame to the object\'s own proto, addService, cleanup on the same real Rpc, nested) + requests/'
+        'notifications/responses (known, duplicate, late, unknown, beyond-int ids)/inbound requests/respond()/addService/cleanup/clock '
+        'advances; world cases: two real Rpc peers running the same program over a scripted dropping/duplicating/reordering pipe. '
         'non-trivial = the model run resumes a frame across segments, decodes several frames from one segment, meets an extreme '
-        'length field / unbalanced text / parse failure, fires a timeout or ignores a late/duplicate/unknown response; distinct = distinct op text')
+        'length field / unbalanced text / parse failure, fires a timeout, ignores a late/duplicate/unknown response, or a callback '
+        're-enters the object (nested completion, request/respond/cleanup/service change from inside a callback); distinct = distinct op text')
 
 
 def hx(b):
@@ -222,58 +229,173 @@ def gen_hostile(rng):
     return ops
 
 
+BIG_IDS = [2147483648, (1 << 32) + 1, (1 << 32) + 2, -(1 << 32) + 1, (1 << 63), (1 << 64) + 1, (1 << 64) - (1 << 32) + 1,
+           -(1 << 63) - 1, 10 ** 24 + 1]
+CODES = [0, 0, 0, 5, -1, -32000]
+
+
+def gen_prog(rng):
+    """definition lines of a random Prog -> (lines, number of scripts, number of handlers).
+    At most one `q` act per completion script (so the number of pending requests cannot multiply from tick to tick);
+    inject id literals come from a pool of <= 6 per Prog (static literals: every one can complete one request only,
+    so callbacks nest at most that deep)."""
+    ncb, nhd = rng.choice([0, 1, 2, 2, 3, 4]), rng.choice([0, 1, 2, 2, 3])
+    pool = [rng.choice([1, 1, 1, 2, 2, 3, 3, 4, 5, 6]) for _ in range(rng.choice([1, 2, 3, 4]))]
+    if rng.random() < 0.4: pool.append(rng.choice([0, -1, 9, 50, 2147483647, -2147483648]))
+    if rng.random() < 0.3: pool.append(rng.choice(BIG_IDS))
+
+    def sidx(n):        # a script / handler index: mostly defined, sometimes not
+        return rng.randrange(n) if n and rng.random() < 0.9 else rng.choice([n, n + 1, 7, 99])
+
+    def act(handler, may_q):
+        for _ in range(20):
+            r = rng.random()
+            if r < 0.24:
+                if may_q[0] > 0:
+                    may_q[0] -= 1
+                    return 'q%d.%d' % (sidx(ncb), rng.choice([0, 0, 1, 2, 3, 7]))
+            elif r < 0.32: return 'n%d' % rng.choice([0, 1, 2, 3])
+            elif r < 0.46: return 'r%d:%d' % (rng.choice([0, 1, 1, 2, 2, 3, 4, -1, 2147483647]), rng.choice(CODES))
+            elif r < 0.58: return 'c%d' % rng.choice(CODES + [7, -32601, 2147483647, -2147483648])
+            elif r < 0.86: return 'i%d:%d' % (rng.choice(pool), rng.choice(CODES))
+            else: return 'v%d:%s' % (rng.choice([0, 0, 1, 2, 3]), '-' if rng.random() < 0.3 else str(sidx(nhd)))
+        return 'n0'
+
+    def acts(handler):
+        may_q = [2 if handler else 1]
+        a = [act(handler, may_q) for _ in range(rng.choice([0, 1, 1, 2, 2, 3, 4]))]
+        if rng.random() < 0.08:
+            if a and rng.random() < 0.6: a[-1] = 'x'
+            elif len(a) < 4 and rng.random() < 0.5: a.append('x')
+            elif len(a) >= 4: a[rng.randrange(4)] = 'x'
+            else: a.insert(rng.randrange(len(a) + 1), 'x')
+        return a
+
+    lines = []
+    for _ in range(ncb):
+        lines.append(' '.join(['cb'] + acts(False)))
+    for _ in range(nhd):
+        ret = rng.choice(['s0', 's0', 's5', 'as', 'as', 's-32000', 's2147483647'])
+        lines.append(' '.join(['hd', ret] + acts(True)))
+    rng.shuffle(lines)
+    return lines, ncb, nhd
+
+
+def peer_ops(rng, st, ncb, nhd):
+    """one random op at an Rpc object; st = {'req': requests issued so far (estimate), 'in': inbound ids used}"""
+    def sidx(n):
+        return rng.randrange(n) if n and rng.random() < 0.9 else rng.choice([n, n + 2, 99])
+    r = rng.random()
+    if r < 0.30:
+        st['req'] += 1
+        return 'req %d %d' % (sidx(ncb), rng.choice([0, 0, 1, 2, 3]))
+    if r < 0.34:
+        return 'note %d' % rng.choice([0, 1, 2, 3])
+    if r < 0.58:
+        k = st['req']
+        if k and rng.random() < 0.8: idv = rng.randrange(1, k + 3)
+        else: idv = rng.choice([0, -1, k + 1, k + 5, 2147483647, -2147483648, (1 << 32) + max(k, 1), (1 << 32) + rng.randrange(1, k + 2)] + BIG_IDS)
+        return 'rsp %d %d' % (idv, rng.choice(CODES))
+    if r < 0.78:
+        if st['in'] and rng.random() < 0.15: idv = rng.choice(st['in'])            # an id served before / being served
+        elif rng.random() < 0.85: idv = len(st['in']) + 1
+        else: idv = rng.choice([0, 0, -1, 2147483647, -2147483648])
+        st['in'].append(idv)
+        return 'inreq %d %d' % (idv, rng.choice([0, 0, 1, 1, 2, 2, 3]))
+    if r < 0.90:
+        idv = rng.choice(st['in']) if st['in'] and rng.random() < 0.7 else rng.choice([0, 1, 2, 3, 6, -1])
+        return 'srsp %d %d' % (idv, rng.choice([0, 0, 5, -32000]))
+    if r < 0.985:
+        return 'svc %d %s' % (rng.choice([0, 1, 2, 3]), '-' if rng.random() < 0.3 else str(sidx(nhd)))
+    return 'cleanup'
+
+
+def early_svc(rng, nhd):
+    out = []
+    for m in range(3):
+        r = rng.random()
+        if r < 0.75 and nhd: out.append('svc %d %d' % (m, rng.randrange(nhd)))
+        elif r < 0.82: out.append('svc %d %s' % (m, rng.choice(['-', str(nhd), '99'])))
+    return out
+
+
 def gen_rpc(rng):
     n = rng.choice([1, 1, 2, 3, 4])
-    ops = ['rpc %s %d' % (rng.choice('HRP'), n)]
-    issued = 0
+    defs, ncb, nhd = gen_prog(rng)
+    ops = ['rpc %s %d' % (rng.choice('HRP'), n)] + defs + early_svc(rng, nhd)
+    st = {'req': 0, 'in': []}
+    advs = [0, 1, 500, 999, 1000, 1000, 1001, 1500, 2000, 3000, n * 1000, n * 1000 - 1, n * 1000 + 1, 10000]
     for _ in range(rng.choice([4, 8, 16, 30])):
-        r = rng.random()
-        if r < 0.30:
-            c = 1 if rng.random() < 0.2 else 0
-            ops.append('req %d' % c); issued += 1 + c
-        elif r < 0.34:
-            ops.append('note')
-        elif r < 0.62:
-            if issued and rng.random() < 0.8: idv = rng.randrange(1, issued + 1)
-            else: idv = rng.choice([0, -1, issued + 1, issued + 5, 2147483647, -2147483648, 2147483648, (1 << 32) + max(issued, 1),
-                                   (1 << 32) + rng.randrange(1, issued + 2), -(1 << 32) + 1, (1 << 63), (1 << 64) + 1, (1 << 64) - (1 << 32) + 1,
-                                   -(1 << 63) - 1, 10 ** 24 + 1])
-            ops.append('rsp %d %d' % (idv, rng.choice([0, 0, 0, 5, -1, -32000])))
+        if rng.random() < 0.30:
+            ops.append('adv %d' % rng.choice(advs))
         else:
-            ops.append('adv %d' % rng.choice([0, 1, 500, 999, 1000, 1000, 1001, 1500, 2000, 3000, n * 1000, n * 1000 - 1, n * 1000 + 1, 10000]))
+            ops.append(peer_ops(rng, st, ncb, nhd))
     ops.append('adv %d' % ((n + 1) * 1000))
     ops.append('adv 5000')
     return ops
 
 
-def gen_world(rng):
-    """two real Rpc peers over a scripted lossy / reordering / duplicating pipe"""
-    nc, ns = rng.choice([1, 1, 2, 3]), rng.choice([1, 2, 3])
-    ops = ['world %s %d %d' % (rng.choice('HRP'), nc, ns)]
-    svcs = ['s0', 's0', 's5', 'as', 'as', 'no']
-    for _ in range(rng.choice([6, 12, 25, 40])):
+def gen_reent(rng):
+    """several requests pending at once; completion / timeout callbacks and a handler feed responses for the
+    other pending ids (and for their own id: a duplicate from inside the callback), retry, clean up"""
+    n = rng.choice([1, 2, 3]); k = rng.choice([2, 3, 4, 5]); ncb = rng.choice([2, 3, 4])
+    defs = []
+    for _ in range(ncb):
+        out, seen = [], False
+        for _ in range(rng.choice([1, 2, 3])):
+            r = rng.random()
+            if r < 0.6: out.append('i%d:%d' % (rng.randrange(1, k + 3), rng.choice(CODES)))
+            elif r < 0.75:
+                if not seen: out.append('q%d.%d' % (rng.randrange(ncb), rng.choice([0, 1]))); seen = True
+            elif r < 0.85: out.append('n1')
+            elif r < 0.93: out.append('r%d:0' % rng.randrange(1, 4))
+            else: out.append('x')
+        defs.append(' '.join(['cb'] + out))
+    nh = rng.choice([0, 1])
+    if nh: defs.append('hd %s i%d:0 c5' % (rng.choice(['s0', 'as']), rng.randrange(1, k + 1)))
+    ops = ['rpc %s %d' % (rng.choice('HRP'), n)] + defs
+    if nh: ops.append('svc 0 0')
+    for _ in range(k): ops.append('req %d 0' % rng.randrange(ncb))
+    for _ in range(rng.choice([2, 4, 6])):
         r = rng.random()
-        if r < 0.22:
-            ops.append('req %d %s' % (1 if rng.random() < 0.15 else 0, rng.choice(svcs)))
-        elif r < 0.26:
-            ops.append('note %s' % rng.choice(svcs))
-        elif r < 0.48:
-            ops.append('dlv cs %d' % rng.choice([0, 0, 0, 1, 2, 5]))
-        elif r < 0.68:
-            ops.append('dlv sc %d' % rng.choice([0, 0, 0, 1, 2, 5]))
-        elif r < 0.72:
-            ops.append('drop %s %d' % (rng.choice(['cs', 'sc']), rng.choice([0, 0, 1])))
+        if r < 0.45: ops.append('rsp %d %d' % (rng.randrange(1, k + 2), rng.choice(CODES)))
+        elif r < 0.6 and nh: ops.append('inreq %d 0' % rng.randrange(1, 5))
+        elif r < 0.8: ops.append('adv %d' % rng.choice([500, 1000, n * 1000]))
+        else: ops.append('req %d 0' % rng.randrange(ncb))
+    ops += ['adv %d' % ((n + 1) * 1000), 'adv 5000']
+    return ops
+
+
+def gen_world(rng):
+    """two real Rpc peers (same user code) over a scripted lossy / reordering / duplicating pipe"""
+    na, nb = rng.choice([1, 1, 2, 3]), rng.choice([1, 2, 3])
+    defs, ncb, nhd = gen_prog(rng)
+    ops = ['world %s %d %d' % (rng.choice('HRP'), na, nb)] + defs
+    ops += ['b ' + o for o in early_svc(rng, nhd)]
+    if rng.random() < 0.5: ops += ['a ' + o for o in early_svc(rng, nhd)][:2]
+    st = {'a': {'req': 0, 'in': []}, 'b': {'req': 0, 'in': []}}
+    for _ in range(rng.choice([6, 12, 18, 22])):
+        r = rng.random()
+        if r < 0.34:
+            p = rng.choice('aaab')
+            for _ in range(10):
+                o = peer_ops(rng, st[p], ncb, nhd)
+                # mostly requests / notifications / respond(); frames by hand and cleanup rarely
+                if o.split()[0] in ('req', 'note', 'srsp', 'svc') or rng.random() < 0.2: break
+            ops.append(p + ' ' + o)
+        elif r < 0.56:
+            ops.append('dlv ab %d' % rng.choice([0, 0, 0, 1, 2, 5]))
+        elif r < 0.76:
+            ops.append('dlv ba %d' % rng.choice([0, 0, 0, 1, 2, 5]))
         elif r < 0.80:
-            ops.append('dup %s %d' % (rng.choice(['cs', 'sc']), rng.choice([0, 0, 1])))
-        elif r < 0.90:
-            nreq = sum(1 for o in ops if o.startswith('req '))
-            idv = rng.randrange(1, nreq + 1) if nreq and rng.random() < 0.6 else rng.choice([0, 1, 2, 3, 6, -1])
-            ops.append('srsp %d %d' % (idv, rng.choice([0, 0, 5, -32000])))
+            ops.append('drop %s %d' % (rng.choice(['ab', 'ba']), rng.choice([0, 0, 1])))
+        elif r < 0.88:
+            ops.append('dup %s %d' % (rng.choice(['ab', 'ba']), rng.choice([0, 0, 1])))
         else:
             ops.append('adv %d' % rng.choice([0, 500, 999, 1000, 1000, 1500, 2000, 3000]))
     for _ in range(3):
-        ops += ['dlv cs 0', 'dlv sc 0']
-    ops += ['adv %d' % ((max(nc, ns) + 1) * 1000), 'dlv cs 0', 'dlv sc 0', 'adv 4000']
+        ops += ['dlv ab 0', 'dlv ba 0']
+    ops += ['adv %d' % ((max(na, nb) + 1) * 1000), 'dlv ab 0', 'dlv ba 0', 'adv 4000']
     return ops
 
 
@@ -281,8 +403,14 @@ def gen(rng, tier):
     q = tier == 'quick'
     # malformed op stream: both sides answer bad-op
     yield ['frob 1', 'feed 0 00', 'open 9 R', 'open 0 H 70000', 'open 0 R', 'feed 0 0g', 'feedsent 0 0 -', 'rpc R 3', 'sendq 0 1 6d zz', 'deep 0 x']
-    yield ['rpc R 0', 'rpc X 2', 'rpc P 2', 'req 2', 'rsp a 0', 'adv -1', 'open 0 R', 'req 0', 'adv 2000']
-    yield ['world R 0 1', 'world R 2 2', 'req 0', 'req 0 zz', 'dlv xx 0', 'srsp 99999999999 0', 'rsp 1 0', 'world R 1 1', 'note s0']
+    yield ['rpc R 0', 'rpc X 2', 'rpc P 2', 'cb q0.8', 'cb zz', 'cb i01:0', 'cb r1', 'cb v0', 'cb xx', 'hd', 'hd s', 'hd sx x', 'hd as q100.0',
+           'req 0', 'req 0 8', 'req 100 0', 'rsp a 0', 'rsp 01 0', 'adv -1', 'adv 100001', 'open 0 R', 'note', 'note 8', 'inreq 1',
+           'inreq 99999999999 0', 'srsp 1', 'svc 0', 'svc 8 0', 'svc 0 x', 'cleanup now', 'a req 0 0', 'dlv ab 0', 'req 0 0', 'cb', 'hd s0', 'adv 2000']
+    yield ['world R 0 1', 'world R 2 2', 'hd as', 'req 0 0', 'a req 0', 'a adv 5', 'c req 0 0', 'dlv xx 0', 'dlv cs 0', 'a srsp 99999999999 0',
+           'rsp 1 0', 'world R 1 1', 'a', 'b', 'a note', 'srsp 1 0', 'a dlv ab 0', 'a note 0', 'cb', 'a cb', 'hd s0', 'dlv ab 0', 'dlv ba 0']
+    # at most 16 definitions of each kind
+    yield ['rpc R 1'] + ['cb n0'] * 17 + ['req 15 0', 'rsp 1 0', 'req 16 0', 'rsp 2 0']
+    yield ['rpc R 1'] + ['hd s0'] * 17 + ['svc 0 15', 'svc 1 16', 'inreq 1 0', 'inreq 2 1']
     # directed: the extreme length field (DESIGN §7 row 8) and its neighbours
     yield ['open 0 H 15962', 'feed 0 3e5affffffff7879']
     yield ['open 0 H 15962', 'feed 0 3e5afffffffa7b7d', 'feed 0 7b7d']
@@ -296,19 +424,46 @@ def gen(rng, tier):
     # deep arrays (Proto::onRecvJson recursion)
     for k in 'RHP':
         yield ['open 0 %s' % ('H 15962' if k == 'H' else k), 'deep 0 1', 'deep 0 50', 'deep 0 %d' % (20000 if q else 150000)]
-    # directed rpc: response before / at / after the deadline, duplicate, unknown
-    yield ['rpc R 2', 'req 0', 'rsp 1 0', 'rsp 1 0', 'adv 2000', 'req 0', 'adv 1999', 'adv 1', 'rsp 2 0', 'rsp 9 0', 'req 1', 'adv 2000', 'adv 2000']
-    yield ['rpc H 1', 'req 1', 'adv 1000', 'adv 1000', 'adv 1000']
-    yield ['rpc P 3', 'req 0', 'adv 500', 'req 0', 'adv 2500', 'adv 500', 'adv 1000']
+    # directed rpc: response before / at / after the deadline, duplicate, unknown; a callback that issues one more request
+    yield ['rpc R 2', 'cb q1.0', 'cb', 'req 1 0', 'rsp 1 0', 'rsp 1 0', 'adv 2000', 'req 1 0', 'adv 1999', 'adv 1', 'rsp 2 0', 'rsp 9 0', 'req 0 0',
+           'adv 2000', 'adv 2000']
+    yield ['rpc H 1', 'cb q1.0', 'cb', 'req 0 0', 'adv 1000', 'adv 1000', 'adv 1000']
+    yield ['rpc P 3', 'req 0 0', 'adv 500', 'req 0 0', 'adv 2500', 'adv 500', 'adv 1000']
     # directed: response ids outside int (must be ignored, not truncated onto a pending request)
-    yield ['rpc R 3', 'req 0', 'rsp 4294967297 0', 'rsp 1 0']
-    yield ['rpc H 3', 'req 0', 'req 0', 'rsp -4294967294 5', 'rsp 18446744069414584321 0', 'rsp 36893488147419103233 0', 'rsp 2 0', 'rsp 1 0']
+    yield ['rpc R 3', 'req 0 0', 'rsp 4294967297 0', 'rsp 1 0']
+    yield ['rpc H 3', 'req 0 0', 'req 0 0', 'rsp -4294967294 5', 'rsp 18446744069414584321 0', 'rsp 36893488147419103233 0', 'rsp 2 0', 'rsp 1 0']
+    # directed: re-entrant user code (the replays of three repaired defects)
+    yield ['rpc R 2', 'cb i1:0', 'req 0 0', 'rsp 1 0', 'rsp 1 0']                                  # D5a duplicate response inside the completion callback
+    yield ['rpc R 2', 'cb x', 'req 0 0', 'rsp 1 0', 'rsp 1 0']                                    # D5b cleanup() inside the completion callback
+    yield ['rpc H 1', 'cb q0.0', 'req 0 0', 'adv 1000', 'adv 1000', 'adv 1000']                   # D5c retry from the timeout callback
+    yield ['rpc R 1', 'cb i1:5 q1.1', 'cb', 'req 0 0', 'adv 1000', 'adv 1000']                    # D5d duplicate response inside the timeout callback
+    yield ['rpc R 1', 'cb x', 'cb', 'req 0 0', 'req 1 0', 'req 1 1', 'adv 1000', 'adv 1000']      # D6 cleanup() inside a timeout callback, more ids in the slot
+    yield ['rpc R 2', 'hd s0 v0:1', 'hd s5', 'svc 0 0', 'inreq 1 0', 'inreq 2 0']                 # D7a handler replaces itself
+    yield ['rpc R 2', 'hd s0 x', 'svc 0 0', 'inreq 1 0', 'inreq 2 0', 'rsp 1 0']                  # D7b handler calls cleanup(), sync
+    yield ['rpc P 2', 'hd as x', 'svc 1 0', 'inreq 3 1', 'adv 3000']                              # D7c handler calls cleanup(), async
+    yield ['rpc R 2', 'hd s0 v0:-', 'svc 0 0', 'inreq 1 0', 'inreq 2 0', 'inreq 0 0']             # D7d handler removes itself
+    # directed: use after cleanup() is refused by the harness (misuse), the rest is dropped silently
+    yield ['rpc R 2', 'cb x q0.0 n1 r5:0 x', 'req 0 0', 'rsp 1 0', 'req 0 0', 'note 0', 'srsp 4 0', 'srsp 0 0', 'cleanup', 'svc 0 0', 'inreq 1 0']
+    # directed: the serving side of one Rpc: sync / error / async / unknown method / notifications / respond() twice, late, unawaited
+    yield ['rpc R 2', 'hd s0', 'hd s5', 'hd as', 'svc 0 0', 'svc 1 1', 'svc 2 2', 'inreq 1 0', 'inreq 2 1', 'inreq 3 2', 'srsp 3 0', 'srsp 3 5',
+           'inreq 4 3', 'inreq 0 0', 'inreq 0 3', 'inreq 5 2', 'adv 2000', 'srsp 5 0', 'srsp 0 0', 'srsp 9 5']
+    yield ['rpc P 1', 'hd as c0', 'hd s0 c5', 'svc 0 0', 'svc 1 1', 'inreq 1 0', 'inreq 2 1', 'inreq 0 1', 'adv 1000']
+    yield ['rpc R 2', 'cb n1 c5 r3:0 v0:0', 'hd s0 q0.2 q1.3', 'req 0 0', 'rsp 1 0', 'inreq 7 0', 'rsp 2 5', 'rsp 3 0', 'adv 2000']
     # directed world: an async service answering twice / late / never; unknown method; notifications; respond() misuse
-    yield ['world R 2 2', 'req 0 as', 'dlv cs 0', 'srsp 1 0', 'srsp 1 5', 'dlv sc 1', 'dlv sc 0', 'adv 2000', 'adv 2000']
-    yield ['world H 1 3', 'req 0 as', 'dlv cs 0', 'adv 1000', 'adv 1000', 'adv 1000', 'srsp 1 0', 'dlv sc 0']
-    yield ['world P 2 2', 'note no', 'dlv cs 0', 'dlv sc 0', 'note s0', 'dlv cs 0', 'note as', 'dlv cs 0', 'req 0 no', 'dlv cs 0',
-           'dlv sc 0', 'srsp 0 0', 'srsp 9 5', 'dlv sc 0', 'req 1 s5', 'dup cs 0', 'dlv cs 0', 'dlv cs 0', 'dlv sc 1', 'dlv sc 0', 'dlv cs 0', 'dlv sc 0']
-    yield ['world R 1 1', 'req 1 as', 'adv 1000', 'dlv cs 1', 'dlv sc 0', 'dlv cs 0', 'adv 1000', 'srsp 1 0', 'dlv sc 0']
+    W = ['cb q1.0', 'cb', 'hd s0', 'hd s5', 'hd as', 'b svc 0 0', 'b svc 1 1', 'b svc 2 2']
+    yield ['world R 2 2'] + W + ['a req 1 2', 'dlv ab 0', 'b srsp 1 0', 'b srsp 1 5', 'dlv ba 1', 'dlv ba 0', 'adv 2000', 'adv 2000']
+    yield ['world H 1 3'] + W + ['a req 1 2', 'dlv ab 0', 'adv 1000', 'adv 1000', 'adv 1000', 'b srsp 1 0', 'dlv ba 0']
+    yield ['world P 2 2'] + W + ['a note 3', 'dlv ab 0', 'dlv ba 0', 'a note 0', 'dlv ab 0', 'a note 2', 'dlv ab 0', 'a req 1 3', 'dlv ab 0',
+           'dlv ba 0', 'b srsp 0 0', 'b srsp 9 5', 'dlv ba 0', 'a req 0 1', 'dup ab 0', 'dlv ab 0', 'dlv ab 0', 'dlv ba 1', 'dlv ba 0', 'dlv ab 0', 'dlv ba 0']
+    yield ['world R 1 1'] + W + ['a req 0 2', 'adv 1000', 'dlv ab 1', 'dlv ba 0', 'dlv ab 0', 'adv 1000', 'b srsp 1 0', 'dlv ba 0']
+    # directed world: a handler that itself issues a request back (answer overtakes it); cleanup() of b from its handler;
+    # a completion callback that answers an inbound request and feeds itself a duplicate; both peers serve each other
+    yield ['world R 2 2', 'cb', 'hd s0 q0.1', 'hd s5', 'b svc 0 0', 'a svc 1 1', 'a req 0 0', 'dlv ab 0', 'dlv ba 1', 'dlv ba 0', 'dlv ab 0', 'adv 3000']
+    yield ['world R 1 1', 'hd s0 x', 'b svc 0 0', 'a req 0 0', 'dlv ab 0', 'adv 1000', 'b srsp 1 0', 'b req 0 0', 'dlv ba 0', 'a req 0 0', 'dlv ab 0', 'adv 1000']
+    yield ['world H 2 3', 'cb r1:0 i1:5 x', 'hd as q0.0', 'a svc 0 0', 'b svc 0 0', 'b req 9 0', 'dlv ba 0', 'dlv ab 0', 'dlv ba 0', 'dlv ab 0',
+           'a note 0', 'adv 3000', 'adv 3000']
+    yield ['world P 1 1', 'cb q0.0', 'hd s5 c0 v0:1', 'hd as n3', 'a svc 0 0', 'b svc 0 0', 'a req 0 0', 'b req 0 0', 'dlv ab 0', 'dlv ba 0', 'dlv ba 0',
+           'dlv ab 0', 'dlv ab 0', 'dlv ba 0', 'adv 1000', 'dlv ab 0', 'dlv ba 0', 'adv 2000']
     n = 120 if q else 2500
     for i in range(n):
         yield gen_roundtrip(rng, exhaustive=(i % 6 == 0))
@@ -316,15 +471,17 @@ def gen(rng, tier):
         yield gen_literal(rng)
     for _ in range(n):
         yield gen_hostile(rng)
-    for _ in range(n):
-        yield gen_rpc(rng)
+    for i in range(n):
+        yield gen_reent(rng) if i % 3 == 0 else gen_rpc(rng)
     for _ in range(n):
         yield gen_world(rng)
 
 
 NT = ('resumed-frame', 'multi-frame', 'hdr-need-body-extreme-len', 'raw-unbalanced-err', 'parse-fail', 'timeout-fired',
-      'rsp-late-or-dup', 'rsp-unknown', 'rsp-id-beyond-int', 'deep', 'w-dlv-rsp-ignored', 'w-dlv-req-reordered', 'w-srsp-unawaited',
-      'w-timeout-fired', 'w-method-not-found', 'w-respond-timeout')
+      'rsp-late-or-dup', 'rsp-unknown', 'rsp-id-beyond-int', 'deep', 'nested-fire', 'cb-request', 'cb-respond', 'cb-cleanup',
+      'svc-changed-in-cb', 'misuse', 'respond-timeout', 'inreq-method-not-found', 'srsp-unawaited',
+      'w-timeout-fired', 'w-rsp-late-or-dup', 'w-rsp-unknown', 'w-nested-fire', 'w-cb-request', 'w-cb-respond', 'w-cb-cleanup',
+      'w-svc-changed-in-cb', 'w-misuse', 'w-respond-timeout', 'w-inreq-method-not-found', 'w-srsp-unawaited', 'w-dlv-reordered')
 
 
 def nontrivial(ops, model_lines):
@@ -347,8 +504,11 @@ def fingerprint(ops, d):
 LEVEL_TEXT = ('Lean 4 theorems over a hand-written model: header framing (32-bit length arithmetic) round trip, prefix stability and '
               'totality; FindEndPos bracket/quote/backslash scanner finds exactly the end of every well-shaped value text and returns '
               '0 on every proper prefix; segmentation independence of the receive loop for every prefix-stable decoder; pending map + '
-              'timeout ring: every callback fires at most once; an unanswered request fires exactly once, at the N-th tick, with the timeout '
-              'code; a matching response fires it with its code; other ids (unknown, duplicate, late, beyond int) are ignored; pending implies timer on. Tied to the code on every run by trace acceptance of the real protos / real Rpc (ASan+UBSan).')
+              'timeout ring under arbitrary re-entrant callback scripts: every callback fires at most once; an unanswered request fires exactly '
+              'once, at the N-th tick, with the timeout code; the first matching response before that fires it with its code; other ids '
+              '(unknown, duplicate, late, beyond int — also fed from inside callbacks) are ignored; monitor invariant (timer on iff something '
+              'monitored) for every program incl. cleanup() from callbacks; a cleaned-up object has nothing pending and never fires again. '
+              'Tied to the code on every run by trace acceptance of the real protos / real Rpc (ASan+UBSan).')
 LEVEL_NOTE = ('trusted: Lean kernel; hand-written model + trace-acceptance tie (coverage bounded by the generator, measured); '
               'nlohmann parse/dump abstract (oracle); stack depth and int truncation of ids outside the model')
 TECHNIQUE = 'Lean 4 proofs (induction over token grammars / op sequences, invariants) + trace acceptance of the implementation'
